@@ -134,7 +134,7 @@ def run_for(prop: str, jobs: int = int(os.environ.get("SA_JOBS", "4"))) -> Dict[
         else:
             res["breaking_total"] += 1
             exp = [m.expect] if isinstance(m.expect, str) else list(m.expect)
-            if r["status"] == "violation" and any(any(x.startswith(e) for x in r["rules"]) for e in exp):
+            if r["status"] == "violation" and any(any(x == e or x.startswith(e + ".") for x in r["rules"]) for e in exp):
                 res["breaking_fired"] += 1
             else:
                 res["failures"].append("breaking variant %s (expected %s) gave %s %s %s" % (
